@@ -1116,4 +1116,263 @@ theorem valLoop_perm {vs1 vs2 : List ValInfo} (h : vs1.Perm vs2) :
 example : applyContribs [(1, ⟨5⟩), (0, ⟨7⟩), (1, ⟨2⟩)] [] = [(0, ⟨7⟩), (1, ⟨7⟩)] ∧
           applyContribs [(0, ⟨7⟩), (1, ⟨2⟩), (1, ⟨5⟩)] [] = [(0, ⟨7⟩), (1, ⟨7⟩)] := by decide
 
+/-! ### each_token_once, part 2: with shares = tokens the accumulated voting power is at most the bonded tokens -/
+
+def sumDed : List ValInfo → Int
+  | [] => 0
+  | v :: t => v.deductions.raw + sumDed t
+def sumShares : List ValInfo → Int
+  | [] => 0
+  | v :: t => v.shares.raw + sumShares t
+def sumBonded : List ValInfo → Int
+  | [] => 0
+  | v :: t => v.bonded + sumBonded t
+
+/-- exchange rate one (no slashing so far): DelegatorShares = Tokens for every bonded validator -/
+def RateOne (vals : List ValInfo) : Prop := ∀ v ∈ vals, v.shares.raw = v.bonded * PREC ∧ 0 < v.bonded
+
+/-- at rate one `shares.MulInt(bonded).Quo(delegatorShares)` is exactly `shares` (no rounding) -/
+theorem power_rate_one (x : Dec) (b : Int) (sv : Dec) (hx : 0 ≤ x.raw) (hb : 0 < b) (hs : sv.raw = b * PREC) :
+    (Gauge.power x b sv).raw = x.raw := by
+  have hP := PREC_pos
+  have hd : 0 < b * PREC := by positivity
+  have hn : 0 ≤ x.raw * b * PREC * PREC := by positivity
+  unfold Gauge.power Dec.quo Dec.mulInt
+  simp only [hs]
+  rw [tquo_nonneg_eq hn (le_of_lt hd)]
+  have e : x.raw * b * PREC * PREC = (x.raw * PREC) * (b * PREC) := by ring
+  rw [e, Int.mul_ediv_cancel _ (ne_of_gt hd)]
+  have hxp : 0 ≤ x.raw * PREC := by positivity
+  unfold chopRound chopRoundNN
+  have h1 : ¬ (x.raw * PREC < 0) := by omega
+  simp only [h1, if_false, Int.mul_emod_left, if_true]
+  exact Int.mul_ediv_cancel _ (ne_of_gt hP)
+
+theorem sumDed_upd_ded (d : Dec) : ∀ (vals : List ValInfo) (a : Addr) (v : ValInfo), findVal vals a = some v →
+    sumDed (updVal vals a (fun v => { v with deductions := v.deductions.add d })) = sumDed vals + d.raw := by
+  intro vals
+  induction vals with
+  | nil => intro a v h; simp [findVal] at h
+  | cons x t ih =>
+    intro a v h
+    unfold findVal at h
+    unfold updVal
+    by_cases hx : x.addr = a
+    · simp only [hx, if_true, sumDed, Dec.add]; omega
+    · simp only [hx, if_false] at h ⊢
+      simp only [sumDed, ih a v h]; omega
+
+theorem sums_upd (vals : List ValInfo) (a : Addr) (f : ValInfo → ValInfo)
+    (hf : ∀ v, (f v).bonded = v.bonded ∧ (f v).shares = v.shares) :
+    sumBonded (updVal vals a f) = sumBonded vals ∧ (RateOne vals → RateOne (updVal vals a f)) := by
+  refine ⟨?_, ?_⟩
+  · induction vals with
+    | nil => rfl
+    | cons x t ih =>
+      unfold updVal
+      by_cases hx : x.addr = a
+      · simp only [hx, if_true, sumBonded, (hf x).1]
+      · simp only [hx, if_false, sumBonded, ih]
+  · intro hr x hx
+    rcases updVal_mem _ _ _ _ hx with h | ⟨v, hv, rfl⟩
+    · exact hr x h
+    · rw [(hf v).1, (hf v).2]; exact hr v hv
+
+theorem sumDed_upd_weights (w : List PoolWeight) (vals : List ValInfo) (a : Addr) :
+    sumDed (updVal vals a (fun x => { x with weights := w })) = sumDed vals := by
+  induction vals with
+  | nil => rfl
+  | cons x t ih =>
+    unfold updVal
+    by_cases hx : x.addr = a
+    · simp only [hx, if_true, sumDed]
+    · simp only [hx, if_false, sumDed, ih]
+
+/-- invariant of the first loop at rate one: accumulated power = Σ deductions -/
+structure KOK (B : Int) (a : Acc) : Prop where
+  rate : RateOne a.vals
+  tot : a.total.raw = sumDed a.vals
+  bonded : sumBonded a.vals = B
+
+theorem delegStep_K {B : Int} {ws : List PoolWeight} {acc acc' : Acc} {d : Addr × Dec} (hk : KOK B acc)
+    (hd : 0 ≤ d.2.raw) (h : delegStep ws acc d = .ok acc') : KOK B acc' := by
+  unfold delegStep at h
+  cases hf : findVal acc.vals d.1 with
+  | none => simp only [hf, Res.ok.injEq] at h; subst h; exact hk
+  | some val =>
+    simp only [hf] at h
+    obtain ⟨hsh, hb⟩ := hk.rate val (findVal_mem _ _ _ hf)
+    have hne : ¬ val.shares.raw = 0 := by have := PREC_pos; rw [hsh]; positivity
+    simp only [hne, if_false] at h
+    cases hp : parseWeights ws with
+    | none => simp [hp] at h
+    | some pws =>
+      simp only [hp, Res.ok.injEq] at h
+      subst h
+      have hs := sums_upd acc.vals d.1 (fun v => { v with deductions := v.deductions.add d.2 }) (fun v => ⟨rfl, rfl⟩)
+      have e1 := sumDed_upd_ded d.2 acc.vals d.1 val hf
+      have e2 := power_rate_one d.2 val.bonded val.shares hd hb hsh
+      refine ⟨hs.2 hk.rate, ?_, by rw [hs.1]; exact hk.bonded⟩
+      show (acc.total.add (Gauge.power d.2 val.bonded val.shares)).raw
+        = sumDed (updVal acc.vals d.1 (fun v => { v with deductions := v.deductions.add d.2 }))
+      rw [e1]
+      have e3 : (acc.total.add (Gauge.power d.2 val.bonded val.shares)).raw = acc.total.raw + (Gauge.power d.2 val.bonded val.shares).raw := rfl
+      rw [e3, e2]
+      have := hk.tot; omega
+
+theorem delegLoop_K {B : Int} {ws : List PoolWeight} : ∀ (ds : List (Addr × Dec)) (acc acc' : Acc),
+    KOK B acc → (∀ d ∈ ds, 0 ≤ d.2.raw) → delegLoop ws ds acc = .ok acc' → KOK B acc' := by
+  intro ds
+  induction ds with
+  | nil => intro acc acc' hk _ h; simp only [delegLoop, Res.ok.injEq] at h; subst h; exact hk
+  | cons d t ih =>
+    intro acc acc' hk hd h
+    simp only [delegLoop] at h
+    obtain ⟨a1, h1, h2⟩ := Bank.bind_ok h
+    exact ih a1 acc' (delegStep_K hk (hd d List.mem_cons_self) h1) (fun x hx => hd x (List.mem_cons_of_mem _ hx)) h2
+
+theorem voteStep_K {B : Int} {dels : List (Addr × Addr × Dec)} {acc acc' : Acc} {v : Vote} (hk : KOK B acc)
+    (hd : ∀ d ∈ dels, 0 ≤ d.2.2.raw) (h : voteStep dels acc v = .ok acc') : KOK B acc' := by
+  have hdels : ∀ d ∈ delsOf dels v.sender, 0 ≤ d.2.raw := by
+    intro d hdm
+    simp only [delsOf, List.mem_map, List.mem_filter] at hdm
+    obtain ⟨x, ⟨hx, _⟩, rfl⟩ := hdm
+    exact hd x hx
+  have key : ∀ vals1, KOK B { acc with vals := vals1 } →
+      delegLoop v.weights (delsOf dels v.sender) { acc with vals := vals1 } = .ok acc' → KOK B acc' :=
+    fun vals1 hk1 h1 => delegLoop_K _ { acc with vals := vals1 } _ hk1 hdels h1
+  unfold voteStep at h
+  refine key _ ?_ h
+  cases findVal acc.vals v.sender with
+  | none => exact hk
+  | some _ =>
+    have hs := sums_upd acc.vals v.sender (fun x => { x with weights := v.weights }) (fun v => ⟨rfl, rfl⟩)
+    exact ⟨hs.2 hk.rate, by simp only [sumDed_upd_weights]; exact hk.tot, by simp only [hs.1]; exact hk.bonded⟩
+
+theorem voteLoop_K {B : Int} {dels : List (Addr × Addr × Dec)} (hd : ∀ d ∈ dels, 0 ≤ d.2.2.raw) :
+    ∀ (vs : List Vote) (acc acc' : Acc), KOK B acc → voteLoop dels vs acc = .ok acc' → KOK B acc' := by
+  intro vs
+  induction vs with
+  | nil => intro acc acc' hk h; simp only [voteLoop, Res.ok.injEq] at h; subst h; exact hk
+  | cons v t ih =>
+    intro acc acc' hk h
+    simp only [voteLoop] at h
+    obtain ⟨a1, h1, h2⟩ := Bank.bind_ok h
+    exact ih a1 acc' (voteStep_K hk hd h1) h2
+
+/-- second loop at rate one: each validator adds at most shares − deductions -/
+theorem valLoop_total : ∀ (vs : List ValInfo) (acc a : Acc),
+    (∀ v ∈ vs, (v.shares.raw = v.bonded * PREC ∧ 0 < v.bonded) ∧ v.deductions.raw ≤ v.shares.raw) →
+    valLoop vs acc = .ok a → a.total.raw ≤ acc.total.raw + (sumShares vs - sumDed vs) := by
+  intro vs
+  induction vs with
+  | nil => intro acc a _ h; simp only [valLoop, Res.ok.injEq] at h; subst h; simp [sumShares, sumDed]
+  | cons v t ih =>
+    intro acc a hv h
+    simp only [valLoop] at h
+    obtain ⟨b, h1, h2⟩ := Bank.bind_ok h
+    have hi := ih b a (fun x hx => hv x (List.mem_cons_of_mem _ hx)) h2
+    obtain ⟨⟨hsh, hb⟩, hded⟩ := hv v List.mem_cons_self
+    rw [valStep_eq] at h1
+    obtain ⟨d, e1, e2⟩ := Bank.bind_ok h1
+    simp only [Res.ok.injEq] at e2
+    subst e2
+    simp only [sumShares, sumDed]
+    cases d with
+    | none => simp only [applyDelta] at hi; omega
+    | some pd =>
+      obtain ⟨p, pws⟩ := pd
+      unfold valDelta at e1
+      by_cases he : v.weights.isEmpty = true
+      · simp [he] at e1
+      · have hne : ¬ v.shares.raw = 0 := by have := PREC_pos; rw [hsh]; positivity
+        simp only [he, Bool.false_eq_true, if_false, hne] at e1
+        cases hp : parseWeights v.weights with
+        | none => simp [hp] at e1
+        | some pws' =>
+          simp only [hp, Res.ok.injEq, Option.some.injEq, Prod.mk.injEq] at e1
+          obtain ⟨rfl, rfl⟩ := e1
+          have hsub : 0 ≤ (v.shares.sub v.deductions).raw := by simp only [Dec.sub]; omega
+          have := power_rate_one (v.shares.sub v.deductions) v.bonded v.shares hsub hb hsh
+          have e : (v.shares.sub v.deductions).raw = v.shares.raw - v.deductions.raw := rfl
+          simp only [applyDelta, Dec.add, this] at hi
+          omega
+
+theorem sumShares_rate (vals : List ValInfo) (h : RateOne vals) : sumShares vals = PREC * sumBonded vals := by
+  induction vals with
+  | nil => simp [sumShares, sumBonded]
+  | cons v t ih =>
+    simp only [sumShares, sumBonded, ih (fun x hx => h x (List.mem_cons_of_mem _ hx)), (h v List.mem_cons_self).1]
+    ring
+
+theorem sumDed_init (vs : List (Addr × Int × Dec)) : sumDed (initVals vs) = 0 := by
+  induction vs with
+  | nil => rfl
+  | cons x t ih => simp only [initVals, List.map_cons, sumDed] at ih ⊢; rw [ih]; rfl
+
+/-- at rate one the voting power accumulated by the whole tally is at most Σ bonded tokens (every token once):
+    a voting delegator's shares are added once with the delegator's weights and deducted from the validator, whose
+    remaining shares are added at most once -/
+theorem total_power_le_bonded {stk : Staking} {votes : List Vote} {a : Acc} (hs : StakingOK stk)
+    (hrate : RateOne (initVals stk.vals)) (hd : DeductionsLeShares stk votes)
+    (h : tallyAcc stk votes = .ok a) : a.total.raw ≤ PREC * sumBonded (initVals stk.vals) := by
+  unfold tallyAcc at h
+  obtain ⟨a1, h1, h2⟩ := Bank.bind_ok h
+  have h0 : KOK (sumBonded (initVals stk.vals)) { vals := initVals stk.vals, res := [], total := Dec.zero, muls := 0 } :=
+    ⟨hrate, by simp only [sumDed_init]; rfl, rfl⟩
+  have hk := voteLoop_K hs.dels_nn votes _ a1 h0 h1
+  have ht := valLoop_total a1.vals a1 a (fun v hv => ⟨hk.rate v hv, hd a1 h1 v hv⟩) h2
+  rw [sumShares_rate _ hk.rate, hk.bonded] at ht
+  have := hk.tot
+  omega
+
+/-- each_token_once: at exchange rate one (shares = tokens·10^18 for every bonded validator), with the staking
+    invariants as hypotheses (TotalBondedTokens = Σ tokens of the bonded validators; voters' delegations to a validator
+    sum to at most its shares) and fewer than 2·10^18 weight multiplications, the gauge counts of a tally sum to at
+    most the total bonded tokens. -/
+theorem each_token_once {stk : Staking} {votes : List Vote} {counts : List (Nat × Int)} (hs : StakingOK stk)
+    (hv : ∀ v ∈ votes, ValidWeights v.weights) (hd : DeductionsLeShares stk votes)
+    (hrate : RateOne (initVals stk.vals)) (htb : stk.totalBonded = sumBonded (initVals stk.vals))
+    (hm : ∀ a, tallyAcc stk votes = .ok a → (a.muls : Int) < 2 * PREC)
+    (hb : 0 ≤ stk.totalBonded)
+    (h : tally stk votes = .ok counts) : sumCounts counts ≤ stk.totalBonded :=
+  each_token_once_of_power hs hv hd
+    (fun a ha => ⟨by rw [htb]; exact total_power_le_bonded hs hrate hd ha, hm a ha⟩) hb h
+
+/-- a delegator's own vote replaces their validator's for their stake (rate one): processing the delegation moves
+    exactly the delegator's shares from the validator's remaining power to the delegator's own weights -/
+theorem delegator_overrides_validator {ws : List PoolWeight} {acc acc' : Acc} {d : Addr × Dec} {val : ValInfo}
+    (hf : findVal acc.vals d.1 = some val) (hd : 0 ≤ d.2.raw) (hb : 0 < val.bonded)
+    (hsh : val.shares.raw = val.bonded * PREC) (hle : val.deductions.raw + d.2.raw ≤ val.shares.raw)
+    (h : delegStep ws acc d = .ok acc') :
+    ∃ pws, parseWeights ws = some pws ∧
+      acc'.res = addWeighted (Gauge.power d.2 val.bonded val.shares) pws acc.res ∧
+      acc'.vals = updVal acc.vals d.1 (fun v => { v with deductions := v.deductions.add d.2 }) ∧
+      (Gauge.power d.2 val.bonded val.shares).raw = d.2.raw ∧
+      (Gauge.power (val.shares.sub (val.deductions.add d.2)) val.bonded val.shares).raw
+        = (Gauge.power (val.shares.sub val.deductions) val.bonded val.shares).raw - d.2.raw := by
+  unfold delegStep at h
+  simp only [hf] at h
+  have hne : ¬ val.shares.raw = 0 := by have := PREC_pos; rw [hsh]; positivity
+  simp only [hne, if_false] at h
+  cases hp : parseWeights ws with
+  | none => simp [hp] at h
+  | some pws =>
+    simp only [hp, Res.ok.injEq] at h
+    subst h
+    refine ⟨pws, rfl, rfl, rfl, power_rate_one _ _ _ hd hb hsh, ?_⟩
+    have h1 : 0 ≤ (val.shares.sub (val.deductions.add d.2)).raw := by simp only [Dec.sub, Dec.add]; omega
+    have h2 : 0 ≤ (val.shares.sub val.deductions).raw := by simp only [Dec.sub]; omega
+    rw [power_rate_one _ _ _ h1 hb hsh, power_rate_one _ _ _ h2 hb hsh]
+    simp only [Dec.sub, Dec.add]; omega
+
+/-- non-vacuity at the arithmetic level (parsed weights): validator of 100 tokens, a delegator holding 30 of its
+    shares votes 0.5/0.5 on pools 0,1 while the validator votes 1.0 on pool 0: counts 85 + 15 = 100 = bonded -/
+example :
+    let sv : Dec := Dec.ofInt 100
+    let pd := Gauge.power (Dec.ofInt 30) 100 sv
+    let pv := Gauge.power (sv.sub (Dec.ofInt 30)) 100 sv
+    toCounts (addWeighted pv [(0, Dec.one)] (addWeighted pd [(0, ⟨HALF⟩), (1, ⟨HALF⟩)] [])) = [(0, 85), (1, 15)] := by
+  decide
+
 end Sunrise.C17
